@@ -10,6 +10,7 @@ import (
 	"strconv"
 	"strings"
 
+	cpucontrol "github.com/containers/nri-plugins/pkg/resmgr/control/cpu"
 	policyapi "github.com/containers/nri-plugins/pkg/resmgr/policy"
 	"github.com/containers/nri-plugins/pkg/utils/cpuset"
 )
@@ -26,25 +27,69 @@ func verifSet(s cpuset.CPUSet) string {
 	return strings.Join(p, "+")
 }
 
+func verifWord(s string) string {
+	if s == "" {
+		return "-"
+	}
+	return strings.ReplaceAll(s, " ", "_")
+}
+
+func verifB(b *bool) string {
+	if b != nil && *b {
+		return "T"
+	}
+	return "F"
+}
+
+// VerifSnapshot: BS = policy-wide sets, BD = a balloon type, BB = a balloon instance, BC = a member
+// container, BK = a CPU class assignment, BL = a CPU tree node.
 func VerifSnapshot(b policyapi.Backend) []string {
 	p, ok := b.(*balloons)
 	if !ok {
 		return []string{"BS none"}
 	}
-	out := []string{fmt.Sprintf("BS allowed=%s reserved=%s free=%s", verifSet(p.allowed), verifSet(p.reserved), verifSet(p.freeCpus))}
+	pin := "T"
+	if p.bpoptions.PinCPU != nil && !*p.bpoptions.PinCPU {
+		pin = "F"
+	}
+	out := []string{fmt.Sprintf("BS allowed=%s reserved=%s free=%s isolated=%s pincpu=%s idleclass=%s", verifSet(p.allowed), verifSet(p.reserved), verifSet(p.freeCpus),
+		verifSet(p.options.System.Isolated()), pin, verifWord(p.bpoptions.IdleCpuClass))}
+	for _, d := range p.bpoptions.BalloonDefs {
+		out = append(out, fmt.Sprintf("BD %s %d %d %d %d %s %s %s", verifWord(d.Name), d.MinCpus, d.MaxCpus, d.MinBalloons, d.MaxBalloons,
+			verifWord(string(d.ShareIdleCpusInSame)), verifB(d.HideHyperthreads), verifWord(d.CpuClass)))
+	}
 	for _, bln := range p.balloons {
-		ctrs := []string{}
-		for podID, cids := range bln.PodIDs {
-			for _, c := range cids {
-				ctrs = append(ctrs, podID+"/"+c)
-			}
-		}
+		ctrs := bln.ContainerIDs()
 		sort.Strings(ctrs)
 		cl := "-"
 		if len(ctrs) > 0 {
 			cl = strings.Join(ctrs, ",")
 		}
-		out = append(out, fmt.Sprintf("BB %s %d %s %s %s %d %d", strings.ReplaceAll(bln.Def.Name, " ", "_"), bln.Instance, verifSet(bln.Cpus), verifSet(bln.SharedIdleCpus), cl, bln.Def.MinCpus, bln.Def.MaxCpus))
+		out = append(out, fmt.Sprintf("BB %s %d %s %s %s %d", verifWord(bln.Def.Name), bln.Instance, verifSet(bln.Cpus), verifSet(bln.SharedIdleCpus), cl, p.requestedMilliCpus(bln)))
+		for _, id := range ctrs {
+			hide := "?"
+			if c, ok := p.cch.LookupContainer(id); ok {
+				hide = "F"
+				if runWithoutHyperthreads(c, bln) {
+					hide = "T"
+				}
+			}
+			out = append(out, fmt.Sprintf("BC %s %s %d %s", id, verifWord(bln.Def.Name), bln.Instance, hide))
+		}
 	}
+	as := cpucontrol.VerifAssignments(p.cch)
+	classes := []string{}
+	for k := range as {
+		classes = append(classes, k)
+	}
+	sort.Strings(classes)
+	for _, k := range classes {
+		out = append(out, fmt.Sprintf("BK %s %s", verifWord(k), verifSet(cpuset.New(as[k]...))))
+	}
+	_ = p.cpuTree.DepthFirstWalk(func(t *cpuTreeNode) error {
+		out = append(out, fmt.Sprintf("BL %s %s %s", verifWord(string(t.level)), verifWord(t.name), verifSet(t.cpus)))
+		return nil
+	})
+	out = append(out, "BE")
 	return out
 }
